@@ -27,7 +27,8 @@ class C02(Prop):
     rule = ("70% (event, filter list) pairs, 30% (filter list, event sequence) runs of the limit-counting matcher, "
             "drawn from a small universe (3 ids, 3 authors, 5 kinds, 5 tag names, 4 values incl. empty, timestamps 0..6 "
             "with since/until 0..7, and in 6% of the draws a created_at / since / until at the ends of int64: MinInt64, "
-            "MinInt64+1, -9e18, -10, -1, 2^31, 2^32, 9e18, both sides of MaxInt64-62135596800, MaxInt64-1, MaxInt64) so that present/absent/empty conditions, boundary timestamps and second-occurrence "
+            "MinInt64+1, -9e18, -10, -1, 2^31, 2^32, 9e18, both sides of MaxInt64-62135596800, MaxInt64-1, MaxInt64; with the same chance a kind outside 0..65535 that agrees with a kind of the universe modulo 2^16 "
+            "or 2^32, and twice as often an event tag whose multi-letter name begins with a filter key: title, emoji, proxy, alt, ee) so that present/absent/empty conditions, boundary timestamps and second-occurrence "
             "tags all occur; a case is non-trivial when at least one filter matches and at least one does not (pairs) or "
             "when Done flips during the run (sequences); distinct = distinct JSON of the case")
     trusted_base = COMMON_TRUSTED
